@@ -20,6 +20,7 @@
 
 #define SHT_SYMTAB 0x2
 #define SHT_STRTAB 0x3
+#define SHT_NOBITS 0x8
 #define SHT_REL 0x9
 
 //#define DEBUG 1
@@ -39,6 +40,45 @@ int imports_obj_verify(const uint8_t *buffer, int file_size)
 
   // Only 32 bit little endian objects can be read by this code.
   if (buffer[4] != 1 || buffer[5] != 1) { return -1; }
+
+  // The section header table, every section's contents and every section
+  // name have to lie inside the file: the readers below follow these
+  // offsets without looking at the file size again.
+  const ElfHeader32 *elf_header = (const ElfHeader32 *)buffer;
+  const uint32_t size = file_size;
+  const uint32_t e_shoff = get_int32_le(elf_header->e_shoff);
+  const uint32_t e_shnum = get_int16_le(elf_header->e_shnum);
+  const uint32_t e_shentsize = get_int16_le(elf_header->e_shentsize);
+  const uint32_t e_shstrndx = get_int16_le(elf_header->e_shstrndx);
+
+  if (e_shentsize < sizeof(ElfSection32)) { return -1; }
+  if (e_shoff > size || e_shnum * e_shentsize > size - e_shoff) { return -1; }
+  if (e_shstrndx >= e_shnum) { return -1; }
+
+  const ElfSection32 *names =
+    (const ElfSection32 *)(buffer + e_shoff + (e_shstrndx * e_shentsize));
+  const uint32_t names_offset = get_int32_le(names->sh_offset);
+  const uint32_t names_size = get_int32_le(names->sh_size);
+
+  if (names_offset > size || names_size > size - names_offset) { return -1; }
+  if (names_size == 0 || buffer[names_offset + names_size - 1] != 0)
+  {
+    return -1;
+  }
+
+  for (uint32_t n = 0; n < e_shnum; n++)
+  {
+    const ElfSection32 *section =
+      (const ElfSection32 *)(buffer + e_shoff + (n * e_shentsize));
+    const uint32_t sh_name = get_int32_le(section->sh_name);
+    const uint32_t sh_type = get_int32_le(section->sh_type);
+    const uint32_t sh_offset = get_int32_le(section->sh_offset);
+    const uint32_t sh_size = get_int32_le(section->sh_size);
+
+    if (sh_name >= names_size) { return -1; }
+    if (sh_type == SHT_NOBITS) { continue; }
+    if (sh_offset > size || sh_size > size - sh_offset) { return -1; }
+  }
 
   return 0;
 }
